@@ -870,13 +870,17 @@ _B1_COMBOS_L3 = ((0, 8, 0), (1, 1, 1))
 
 
 def _decode_b1(pfx, j):
-    gi, k, nl, L, combos = pfx
+    gi, k, nl, L, combos, mids = pfx
     j, ci = divmod(j, len(combos))
+    mid, la, tag = combos[ci]
+    if mids is not None:  # (x, m, y) with m one of the single-qubit / measurement letters
+        j, y = divmod(j, nl)
+        x, mi = divmod(j, len(mids))
+        return (("u", gi), k, (x, mids[mi], y), mid, la, tag)
     seq = []
     for _ in range(L):
         j, d = divmod(j, nl)
         seq.append(d)
-    mid, la, tag = combos[ci]
     return (("u", gi), k, tuple(reversed(seq)), mid, la, tag)
 
 
@@ -891,7 +895,16 @@ def _cases_route_letters(tier):
             k = min(4, n)
             nl = len(_route_letters(k, 0))
             combos = _B1_COMBOS_L3 if L == 3 else (_B1_COMBOS_QUICK if tier == "quick" else _B1_COMBOS_FULL)
-            blocks.append(((gi, k, nl, L, combos), nl ** L * len(combos)))
+            blocks.append(((gi, k, nl, L, combos, None), nl ** L * len(combos)))
+    if tier == "quick":
+        # length 3 with a single-qubit gate or the measurement in the middle (order of 1-qubit ops between 2-qubit ops)
+        for gi, (n, edges) in enumerate(_B["graphs"]):
+            if n > 4:
+                continue
+            k = min(4, n)
+            nl = len(_route_letters(k, 0))
+            mids = (nl - 3, nl - 2, nl - 1)
+            blocks.append(((gi, k, nl, 3, _B1_COMBOS_L3, mids), nl * len(mids) * nl * len(_B1_COMBOS_L3)))
     return _LazyCases(blocks, _decode_b1)
 
 
